@@ -41,6 +41,10 @@ CHECKS = {
    text="StoreImpl.tla models a multi-relationship write as the code does it (BEGIN, optional name-mapping insert, chunked INSERTs, chunked DELETEs, COMMIT) with a fault before any statement, a crash before any statement and a reader between any two statements; TLC checks exhaustively that the committed state is always the state before or the full effect, equals the state before after an error or crash, and that readers only ever see those two states. On the real code a wrapping database/sql driver logs every statement, fails the k-th statement for every k of the fault-free log, and kills a child process before the k-th statement on a file database; request shapes span the real chunk sizes (3000/100) with invalid elements at chosen positions over Manager, REST PATCH and gRPC Transact; the store must equal the state before. Every recorded statement log is validated by TLC against TraceTx.tla (one transaction per request, chunk sizes, inserts before deletes, nothing after a failure but ROLLBACK). Readers list while a writer toggles two states.",
    note="sqlite only (in-memory for faults, file-backed for crash points); lock errors of concurrent readers are not observations; StoreImpl.tla uses chunk sizes 2/1 and <= 3 inserts, <= 3 deletes.",
    technique="TLA+ model checking (TLC) + statement-level fault and crash-point enumeration + TLC trace validation of SQL statement logs", ref="4/C05"),
+ "C09": dict(
+   text="Expand.tla transcribes buildTreeRecursive (depth-first, storage order, one visited set tested before the depth test, nil child becomes a leaf) and defines the tree properties as operators; TLC evaluates every subset of a 10-tuple universe (chain, diamond, cycles, self-loop, duplicate) x storage orders x depths, checks that the code's design is sound, depth-bounded and expands once, and that a depth-aware visited set would also be complete. Every enumerated case is replayed on the real engine, REST and gRPC with the storage order imposed; the real tree must have only stored edges, expand each set once, respect max-depth, contain only reachable subjects and every subject reachable within the depth; transports must agree with the engine; leaves must equal check decisions when the depth is not binding; nodes with 99..201 children cross the page size.",
+   note="The recorded finding (a set first reached at exhausted depth is skipped later) is attributed only when the real tree equals the as-is model tree exactly and the model says the case is incomplete. sqlite only.",
+   technique="TLA+ model checking (TLC) + spec-enumerated cases replayed on engine/REST/gRPC", ref="4/C09"),
 }
 NOT_YET = "check not built yet in this session (work in progress, see DESIGN.md section 12)"
 
